@@ -43,6 +43,11 @@ func (c *Conn) handleIdle(dec *imapwire.Decoder) error {
 	} else if err != nil {
 		return err
 	} else if isPrefix || string(line) != "DONE" {
+		if isPrefix {
+			if err := discardLongLine(c.br); err != nil {
+				return err
+			}
+		}
 		return newClientBugError("Syntax error: expected DONE to end IDLE command")
 	}
 
